@@ -5,6 +5,8 @@ package capacity
 import (
 	"os"
 	"time"
+
+	"massnet.org/mass/poc/engine"
 )
 
 // environment of ConfigureByPath by contract: the directories exist, paths are already absolute, the index has been
@@ -20,6 +22,15 @@ func (vsDirInfo) Sys() interface{}   { return nil }
 
 func vsAbs(p string) (string, error)           { return p, nil }
 func vsStat(p string) (os.FileInfo, error)     { return vsDirInfo{}, nil }
+
+// recorder for the configured list that does not allocate by its (symbolic) length
+func vsApplyRec(sk *SpaceKeeper, wsList []*WorkSpace, execPlot, execMine bool) ([]engine.WorkSpaceInfo, error) {
+	if len(wsList) == 0 {
+		return nil, ErrSpaceKeeperConfiguredNothing
+	}
+	vsApplied = wsList
+	return []engine.WorkSpaceInfo{{}}, nil
+}
 
 // VsH_ConfigureByPath: the real ConfigureByPath over two directories, each with its own requested size, and 0..1
 // indexed spaces per bit length in either directory: per directory the selected total stays within that directory's
